@@ -3,18 +3,29 @@
    DemuxCase: operation list on one RtpTransport; observations = for every Recv the listener
    channels that received the packet and has_listener(ssrc) afterwards, for every Probe
    has_listener(ssrc).
-   BridgeCase: bridge configuration, arriving packets, and for every arrival the datagram read
-   from the target's peer socket (None = nothing arrived): which target (video?) and the parsed
-   header fields / extension elements.  The wire carries 7 bits of payload type. *)
+   DemuxCase carries the listener channel capacity; Drain observations are the packet tags taken
+   from the channel.
+   BridgeCase: initial SRTP modes of the main / video target, operation list (install / clear the
+   bridge, start SRTP on a target, arriving packets with their authenticity), and for every arriving
+   packet what was seen: the datagram read from the target's peer socket after a REFERENCE SRTP
+   unprotect where the target protects (which target, parsed header fields, raw extension block),
+   the packet arriving at the source's own listener (no bridge), or nothing.
+   The wire carries 7 bits of payload type. *)
 From Coq Require Import ZArith List Bool.
 From RV Require Import Model.Demux.
 From RV Require Import Model.Bridge.
 Import ListNotations.
 Open Scope Z_scope.
 
+(* what the harness saw for one arriving packet *)
+Inductive wobs : Set :=
+| WFwd (video : bool) (o : bpkt)
+| WListener
+| WNone.
+
 Inductive case : Set :=
-| DemuxCase (ops : list Demux.op) (obs : list Demux.obs)
-| BridgeCase (b : bridge) (ins : list bin) (outs : list (option (bool * bpkt))).
+| DemuxCase (cap : Z) (ops : list Demux.op) (obs : list Demux.obs)
+| BridgeCase (main video : tmode) (ops : list bop) (outs : list wobs).
 
 Fixpoint zlist_eqb (a b : list Z) : bool :=
   match a, b with
@@ -32,43 +43,50 @@ Fixpoint dobs_list_eqb (a b : list Demux.obs) : bool :=
   | _, _ => false
   end.
 
-Fixpoint elems_eqb (a b : list (Z * list Z)) : bool :=
-  match a, b with
-  | [], [] => true
-  | (i, d) :: a', (j, e) :: b' => (i =? j) && zlist_eqb d e && elems_eqb a' b'
-  | _, _ => false
-  end.
 Definition ext_eqb (a b : option bext) : bool :=
   match a, b with
   | None, None => true
-  | Some (p, x), Some (q, y) => (p =? q) && elems_eqb x y
+  | Some (p, x), Some (q, y) => (p =? q) && zlist_eqb x y
   | _, _ => false
   end.
 (* model packet (struct fields) against the packet parsed from the wire *)
 Definition bpkt_eqb (m w : bpkt) : bool :=
   (q_ssrc m =? q_ssrc w) && (q_pt m mod 128 =? q_pt w) && (q_seq m =? q_seq w) && (q_ts m =? q_ts w)
   && Bool.eqb (q_marker m) (q_marker w) && ext_eqb (q_ext m) (q_ext w).
-Fixpoint bobs_eqb (m : list (bool * bpkt)) (w : list (option (bool * bpkt))) : bool :=
-  match m, w with
-  | [], [] => true
-  | (v, q) :: m', Some (v', q') :: w' => Bool.eqb v v' && bpkt_eqb q q' && bobs_eqb m' w'
-  | _, _ => false
+Definition is_pkt (o : bop) : bool := match o with BPkt _ _ => true | _ => false end.
+(* model outcomes of the packet operations against the observations *)
+Fixpoint wobs_eqb (m : list bout) (w : list wobs) : bool :=
+  match m with
+  | [] => match w with [] => true | _ => false end
+  | NoOut :: m' => wobs_eqb m' w
+  | o :: m' =>
+      match w with
+      | [] => false
+      | x :: w' =>
+          (match o, x with
+           | Forwarded v q, WFwd v' q' => Bool.eqb v v' && bpkt_eqb q q'
+           | Consumed _, WNone => true
+           | Rejected, WNone => true
+           | ToListeners, WListener => true
+           | _, _ => false
+           end) && wobs_eqb m' w'
+      end
   end.
 
 Inductive out : Set :=
 | DemuxOut (o : list Demux.obs)
-| BridgeOut (o : list (bool * bpkt)).
+| BridgeOut (o : list bout).
 
 Definition model_out (c : case) : out :=
   match c with
-  | DemuxCase ops _ => DemuxOut (Demux.run_obs Demux.init ops)
-  | BridgeCase b ins _ => BridgeOut (bobs b ins)
+  | DemuxCase c ops _ => DemuxOut (Demux.run_obs (Demux.init_with c) ops)
+  | BridgeCase m v ops _ => BridgeOut (trun (mkT None m v) ops)
   end.
 
 Definition check_case (c : case) : bool :=
   match c with
-  | DemuxCase ops obs => dobs_list_eqb (Demux.run_obs Demux.init ops) obs
-  | BridgeCase b ins outs => bobs_eqb (bobs b ins) outs
+  | DemuxCase c ops obs => dobs_list_eqb (Demux.run_obs (Demux.init_with c) ops) obs
+  | BridgeCase m v ops outs => wobs_eqb (trun (mkT None m v) ops) outs
   end.
 
 Fixpoint bad_from (i : Z) (cs : list case) : list Z :=
